@@ -302,6 +302,39 @@ def run(ctx: Ctx):
                               {**case, "u": float(us_i[k]), "log_e_nu": float(y[k]), "F": float(F[k])})
             if not close(float(out[1]) * float(out[2]), 1.0, 1e-12):
                 ctx.violation("Spectra.__call__", "norm*sum!=1", "spec_norm * sum_spec_weights != 1", {**case, "norm": float(out[1]), "sum": float(out[2])})
+    # ------------------------------------------------------------------ diagnostics on: the optional result plots must not change what
+    # is returned or stored (same uniform numbers -> same per-event energies, stored column = returned vector)
+    os.environ.setdefault("MPLBACKEND", "Agg")
+    try:
+        import matplotlib
+        matplotlib.use("Agg", force=True)
+        from matplotlib import pyplot as _plt
+        have_mpl = True
+    except Exception:  # noqa
+        have_mpl = False
+    if have_mpl:
+        us_p = rng.uniform(0, 1, 257)
+        for spec_p in (Simulation.PowerSpectrum(index=2.0, lower_bound=6.0, upper_bound=12.0), Simulation.PowerSpectrum(index=1.0, lower_bound=7.0, upper_bound=9.5),
+                       Simulation.MonoSpectrum(log_nu_energy=8.25)):
+            ref, exc0, _ = call_real(nss, sm, cfg, spec_p, len(us_p), us_p)
+            for plot_arg in ("spectra_histogram", ["spectra_histogram"]):
+                got_store = {}
+                out, exc, _ = call_real(nss, sm, cfg, spec_p, len(us_p), us_p, plot=plot_arg,
+                                        store=lambda names, vals, got_store=got_store: got_store.update({k: np.array(v, copy=True) for k, v in zip(names, vals)}))
+                _plt.close("all")
+                case = {"spectrum": spec_p.model_dump(), "plot": plot_arg, "N": len(us_p)}
+                ctx.case(("plot", spec_p.id, str(plot_arg)), case if spec_p.id == "powerspectrum" and isinstance(plot_arg, str) else None)
+                ctx.count("plot_enabled_runs")
+                if exc is not None or exc0 is not None:
+                    ctx.violation("Spectra.__call__", "raises-with-plot", f"raises with the diagnostic plot enabled: {exc or exc0}", case)
+                    continue
+                y0, y1 = np.asarray(ref[0], dtype=np.float64), np.asarray(out[0], dtype=np.float64)
+                if not np.array_equal(y0, y1):
+                    k = int(np.nonzero(y0 != y1)[0][0])
+                    ctx.violation("Spectra.__call__", "result-depends-on-plot-option", "with the diagnostic plot enabled the returned energies are not the per-event inverse-CDF images of the same uniform numbers",
+                                  {**case, "event": k, "u": float(us_p[k]), "log_e_nu_without_plot": float(y0[k]), "log_e_nu_with_plot": float(y1[k])})
+                elif "log_e_nu" in got_store and not np.array_equal(got_store["log_e_nu"], y1):
+                    ctx.violation("Spectra.__call__", "stored-column-differs-from-returned", "the stored log_e_nu column differs from the returned vector", case)
     # ------------------------------------------------------------------ structured stream
     sizes = [0, 1, 2, 3, 7, 64, 1000] + ([8191, 8192, 8193] if ctx.thorough else [257])
     for k in range(120 * T):
